@@ -46,6 +46,13 @@ Theorem C19_free_iff_absorbed : forall l,
   ic_used index_optimized (fold_left io_push l io_default) = [0; 0] <-> snd (stride_split SEmpty l) = [].
 Proof. exact io_cost_zero_iff. Qed.
 
+(** Exactly the documented shapes are free: a sequence of representable values occupies no heap at all IF AND
+    ONLY IF it is empty, [0], or 0, s, 2s, ... optionally followed by repeats of its last element. *)
+Theorem C19_free_iff_documented_shape : forall l, Forall (fun x => x < W) l ->
+  (ic_used index_optimized (fold_left io_push l io_default) = [0; 0] <->
+   (l = [] \/ l = [0] \/ exists s c r, (2 <= c)%nat /\ l = strides s c ++ repeat (s * N.of_nat (c - 1)) r)).
+Proof. exact io_free_iff_shape. Qed.
+
 (** Consequently a FlatStack with the optimised index container over a dense-index region
     (ConsecutiveIndexPairs over any region with dense pair indices) spends ZERO heap bytes on its own
     indices, for ANY number of copied items (below 2^64): the region hands out 0, 1, 2, ... (C12) and
